@@ -326,6 +326,33 @@ fn rand_model(dir: &str, seed: u64, nb: u64, ops: u64) -> bool {
     ok
 }
 
+/// D7 / C07: a per-mille buffer below 1000 behaves like any other (runs in a child: the defect is a stack overflow)
+fn d7_per_mille(dir: &str) -> bool {
+    watchdog(120);
+    let mut ok = true;
+    for pm in [1000u16, 999, 500, 1] {
+        let p = fresh(dir);
+        let db = abyssiniandb::open_file(&p).unwrap();
+        let params = FileDbParams {
+            key_buf_size: FileBufSizeParam::PerMille(pm),
+            val_buf_size: FileBufSizeParam::PerMille(pm),
+            htx_buf_size: FileBufSizeParam::PerMille(pm),
+            buckets_size: HashBucketsParam::BucketsSize(64),
+            ..Default::default()
+        };
+        let mut m = db.db_map_string_with_params("m", params).unwrap();
+        println!("d7_per_mille: PerMille({pm}) ...");
+        for i in 0..3000u64 {
+            m.put(&key(i), &vec![(i % 251) as u8; 100]).unwrap();
+        }
+        for i in 0..3000u64 {
+            ok &= m.get(&key(i)).unwrap() == Some(vec![(i % 251) as u8; 100]);
+        }
+        println!("d7_per_mille: PerMille({pm}) ok so far: {ok}");
+    }
+    ok
+}
+
 fn main() {
     let a: Vec<String> = std::env::args().collect();
     let name = a.get(1).map(|s| s.as_str()).unwrap_or("");
@@ -339,6 +366,7 @@ fn main() {
         "d4_del_relink" => d4_del_relink(&dir),
         "d5_sig_collision" => d5_sig_collision(&dir),
         "d6_buf_size" => d6_buf_size(&dir),
+        "d7_per_mille" => d7_per_mille(&dir),
         "rand_model" => {
             let g = |i: usize, d: u64| a.get(i).and_then(|s| s.parse().ok()).unwrap_or(d);
             rand_model(&format!("/tmp/verif-e2e-rand-{}", std::process::id()), g(2, 1), g(3, 1), g(4, 20000))
